@@ -308,7 +308,7 @@ def run_case(shape, text, preemptions, oid='C01.E', extra=None):
                      'every action outcome and guard value symbolic; '
                      'delivery order: FIFO with <= 1 out-of-order delivery '
                      'at any point',
-            'thorough': 'same shapes, <= 3 out-of-order deliveries'},
+            'thorough': 'same shapes, <= 2 out-of-order deliveries'},
     stubs=['minidb', 'QueueRPC', 'FakeScheduler', 'FakeExecutor',
            'post-commit queue inline', 'expr_stub for guard strings',
            'deterministic uuid / clock'],
@@ -323,5 +323,5 @@ def c01_e(ctx):
     undeclared error, no post-commit operation failed"""
     boot()
     for shape, text in shapes.RUN_SHAPES.items():
-        yield Case(shape, run_case(shape, text, ctx.pick(1, 3)),
+        yield Case(shape, run_case(shape, text, ctx.pick(1, 2)),
                    needed=['quiescent'], max_paths=300000)
